@@ -1,6 +1,6 @@
 """C18 — rational approximation (narrow claim): the documented simplicity order.
 Optimality of simplest_in, Farey neighbours and nearest is numeric (continued fractions): not decided."""
-from . import fdt_tables
+from . import fdt_tables, mir
 
 PROP = "C18"
 CONFIGS = {"quick": ["dbg"], "thorough": ["dbg", "rel", "feat", "w32", "nostd"]}
@@ -15,6 +15,7 @@ TRUSTED = ["rustc MIR", "leaf summaries (numerator/denominator accessors, intege
 
 def run(res, programs, tier):
     fdt_tables.r18_1(res, programs, "R18.1")
+    _r18_2(res, programs)
     # the callers use it only to compare interval end points with the interior optimum
     res.rule("R18.1b", "simplest_from_float / impl_simplest_from_float consult is_simpler_than for exactly the included end points (incl_l -> left, incl_r -> right)")
     from . import mir, sym, guards
@@ -40,3 +41,115 @@ def run(res, programs, tier):
                 else:
                     res.fail("R18.1b", P.name, key, "%s compares an interval end point with is_simpler_than without testing whether that end point is included" % f["p"], mir.span_loc(t["sp"]))
         res.floor("R18.1b", P.name, n, 4, "uses of is_simpler_than")
+
+
+# ---- R18.2: rounding interval of a float (ErrorBounds) ------------------------------------------------
+import copy
+from fractions import Fraction
+from . import fdt
+from .fdt import Adt, Big
+from .fdt_tables import base_summaries, CONSTS, _v, sign_of
+
+FB, RP, CX = "dashu_float::fbig::FBig", "dashu_float::repr::Repr", "dashu_float::repr::Context"
+
+
+def _fbig(signif, exp, prec):
+    return Adt(FB, "FBig", [Adt(RP, "Repr", [Big(signif), exp], 0), Adt(CX, "Context", [prec, ()], 0)], 0)
+
+
+def _val(f, B=10):
+    r = f.fields[0]
+    return Fraction(_v(r.fields[0])) * Fraction(B) ** r.fields[1]
+
+
+def _digits(n, B=10):
+    n = abs(n)
+    d = 0
+    while n:
+        n //= B
+        d += 1
+    return d
+
+
+def _eb_oracle(mode, signif, exp, prec, B=10):
+    """(lower distance, upper distance, incl_l, incl_r) of {x : round_mode(x) == f} at precision prec"""
+    if prec == 0:
+        return (0, 0, True, True)
+    d = _digits(signif, B)
+    ulp = Fraction(B) ** (exp + d - prec)
+    k = signif * B ** (prec - d)           # the number in units of ulp
+    pos = k > 0
+    if mode == "Zero":
+        return (0, ulp, True, False) if pos else (ulp, 0, False, True)
+    if mode == "Away":
+        return (ulp, 0, False, True) if pos else (0, ulp, True, False)
+    if mode == "Up":
+        return (ulp, 0, False, True)
+    if mode == "Down":
+        return (0, ulp, True, False)
+    if mode == "HalfAway":
+        return (ulp / 2, ulp / 2, True, False) if pos else (ulp / 2, ulp / 2, False, True)
+    if mode == "HalfEven":
+        e = (k % 2 == 0)
+        return (ulp / 2, ulp / 2, e, e)
+    raise ValueError(mode)
+
+
+def _r18_2(res, programs):
+    res.rule("R18.2", "ErrorBounds::error_bounds of the six modes returns, for non-zero floats of both signs and both parities of the last digit, the interval of reals that round to the float (end-point distances in {0, ulp/2, ulp} and their open/closed flags), as derived from the mode's definition")
+    for P in programs:
+        if "dashu_float" not in P.units:
+            continue
+        cfgname = P.name
+        S = base_summaries()
+        S["dashu_float::fbig::FBig::<R, B>::precision"] = lambda ev, a, fr: a[0].fields[1].fields[0]
+        S["dashu_float::fbig::FBig::<R, B>::repr"] = lambda ev, a, fr: a[0].fields[0]
+        S["dashu_float::repr::Repr::<B>::is_zero"] = lambda ev, a, fr: int(_v(a[0].fields[0]) == 0 and a[0].fields[1] == 0)
+        S["dashu_float::repr::Repr::<B>::sign"] = lambda ev, a, fr: sign_of(_v(a[0].fields[0]) if _v(a[0].fields[0]) != 0 else a[0].fields[1])
+        S["dashu_float::repr::Repr::<B>::digits"] = lambda ev, a, fr: _digits(_v(a[0].fields[0]))
+
+        def ulp(ev, a, fr):
+            f = a[0]
+            r, c = f.fields[0], f.fields[1]
+            if c.fields[0] == 0:
+                raise fdt.Panic("precision cannot be 0 (unlimited) for this operation!")
+            return Adt(FB, "FBig", [Adt(RP, "Repr", [Big(1), r.fields[1] + _digits(_v(r.fields[0])) - c.fields[0]], 0), copy.deepcopy(c)], 0)
+        S["dashu_float::fbig::FBig::<R, B>::ulp"] = ulp
+        S["*as core::clone::Clone>::clone"] = lambda ev, a, fr: copy.deepcopy(a[0])
+        S["dashu_int::ubig::UBig::from_word"] = lambda ev, a, fr: Big(a[0], "UBig")
+        S["<T as core::convert::Into<U>>::into"] = lambda ev, a, fr: Big(_v(a[0]))
+        S["*From<dashu_int::ubig::UBig> for dashu_int::ibig::IBig>::from"] = lambda ev, a, fr: Big(_v(a[0]))
+        consts = dict(CONSTS)
+        consts["param:B"] = 10
+        consts["FBig::<R, B>::ZERO"] = _fbig(0, 0, 0)
+        consts["FBig::<Self, B>::ZERO"] = _fbig(0, 0, 0)
+        from .fdt_tables import MODES
+        for mode in MODES:
+            fn = next((f for f in P.fns("dashu_float") if f["p"] == "<dashu_float::round::mode::%s as dashu_float::round::ErrorBounds>::error_bounds" % mode), None)
+            if fn is None:
+                res.anchor("R18.2", cfgname, "error_bounds of " + mode)
+                continue
+            for (signif, exp, prec) in ((2, 1, 1), (3, 1, 1), (-2, 1, 1), (-3, 1, 1), (12, 0, 2), (-13, 0, 2), (7, 0, 3), (5, 0, 0), (-5, 2, 0)):
+                cell = (signif, exp, prec)
+                consts2 = dict(consts)
+                consts2["FBig::<R, B>::ZERO"] = _fbig(0, 0, 0)
+                r = fdt.tabulate(P, fn, [(cell, [_fbig(signif, exp, prec)])], S, consts2)[cell]
+                key = "%s::error_bounds(%d x 10^%d @ precision %d)" % (mode, signif, exp, prec)
+                if isinstance(r, tuple) and r and r[0] == "undecided":
+                    res.anchor("R18.2", cfgname, key + ": evaluator undecided (%s)" % r[1][:140])
+                    continue
+                if isinstance(r, tuple) and r and r[0] == "panic":
+                    if prec == 0:
+                        # documented: ulp() refuses unlimited precision; the directed modes call it
+                        res.ok("R18.2", cfgname, key + "|panics-at-unlimited-precision", nontrivial=False)
+                        continue
+                    res.fail("R18.2", cfgname, key, "%s panics (%s)" % (key, r[1]), mir.span_loc(fn["sp"]))
+                    continue
+                got = (_val(r[0]), _val(r[1]), bool(r[2]), bool(r[3]))
+                want = _eb_oracle(mode, signif, exp, prec)
+                want = (Fraction(want[0]), Fraction(want[1]), want[2], want[3])
+                if got == want:
+                    res.ok("R18.2", cfgname, key, sample=dict(mode=mode, float=list(cell), interval=[str(got[0]), str(got[1]), got[2], got[3]]))
+                else:
+                    res.fail("R18.2", cfgname, key, "%s returns (-%s, +%s, closed_left=%s, closed_right=%s); the reals that round to this float under mode %s are (-%s, +%s, closed_left=%s, closed_right=%s)" % (
+                        key, got[0], got[1], got[2], got[3], mode, want[0], want[1], want[2], want[3]), mir.span_loc(fn["sp"]))
